@@ -221,6 +221,9 @@ func finish(cfg vlib.Cfg, rep *vlib.Report) {
 	rep.Floor(rep.Counter("query_records_max") >= 150, "largest query result: %d records", rep.Counter("query_records_max"))
 	rep.Floor(rep.Counter("form/estruct") >= 300 && rep.Counter("nil_embedded_pointer_records") >= 5, "typed records with fields promoted from embedded structs: %d (with nil embedded pointer: %d)",
 		rep.Counter("form/estruct"), rep.Counter("nil_embedded_pointer_records"))
+	rep.Floor(rep.Counter("boundary_steps_judged") >= 3, "maintenance runs judged within the second a record expires: %d (skipped %d)",
+		rep.Counter("boundary_steps_judged"), rep.Counter("boundary_steps_skipped"))
+	rep.Floor(rep.SeenCount("operand_forms") >= 15, "operand representations of int/float operators seen: %d", rep.SeenCount("operand_forms"))
 	rep.Floor(rep.Counter("query_consume/stall") >= 8, "queries with a stalling consumer: %d", rep.Counter("query_consume/stall"))
 	rep.Floor(rep.Counter("stall_truncated_with_error") >= 2, "stalled queries that the executor gave up on (truncated, with error): %d", rep.Counter("stall_truncated_with_error"))
 	for _, m := range []string{"buffer", "slow", "prompt"} {
